@@ -553,6 +553,10 @@ func (pr Pairing) AssertFinalExponentiationIsOne(x *GTEl) {
 		A11: *pr.curveF.Zero(),
 	}
 
+	// residueWitness must be invertible: with residueWitness = scalingFactor = 0
+	// the check below would read 0 == 0 for any x.
+	pr.Ext12.Inverse(residueWitness)
+
 	// Check that  x * scalingFactor == residueWitness^(q-u)
 	// where u=-0xd201000000010000 is the BLS12-381 seed,
 	// and residueWitness, scalingFactor from the hint.
